@@ -341,4 +341,95 @@ def specSuppliedKept (mols : List Mol) (sn : Snapshot) : Bool :=
     | some m => m.ignored || m.supplied.all (fun kv => m.isBuild kv.1 || sn.pos j kv.1 == some kv.2)
     | none => true)
 
+/-! ### `BuildSystem.maxiter`: the give-up branch of `_handle_random_walk`, exactly as written
+
+    step_count = 0
+    while True:
+        … one attempt (a fresh `RandomWalk`) …
+        if processor.success:
+            return True, processor.nonbond_matrix
+        built_nodes = [node for node in molecule.nodes if molecule.nodes[node]["build"]]
+        if step_count == self.maxiter:
+            processor.nonbond_matrix.remove_positions(mol_idx, built_nodes)
+            return False, processor.nonbond_matrix
+        else:
+            step_count += 1
+            self.nonbond_matrix.remove_positions(mol_idx, built_nodes)
+
+and in `_compose_system`: `if success: self.nonbond_matrix = new; …; mol_idx += 1` — nothing else, so
+after a `False` the `while mol_idx < mol_tot` loop comes back to the SAME molecule and calls
+`_handle_random_walk` again (`step_count = 0`).  `processor.nonbond_matrix` is the object
+`self.nonbond_matrix` (the constructor stores the reference), so both branches act on the one engine.
+
+`GSys` extends the state of the machine above by the local `step_count` and by the log of the values
+`_handle_random_walk` has returned; `stepG` is `step` with the two branches spelled out.  That the
+projection to `Sys` is `step` — for every `maxiter` — is `Proofs.Walk.stepG_sys`; it is what justifies
+the single transition `failAttempt` of the machine above. -/
+
+structure GSys where
+  sys : Sys
+  /-- `step_count` of the running call of `_handle_random_walk` = failed attempts of that call so far -/
+  stepCount : Nat
+  /-- return values of `_handle_random_walk` so far: `(mol_idx, success)`, oldest first -/
+  returns : List (Nat × Bool)
+
+/-- the attempt on the head of `todo` failed: the `if step_count == self.maxiter … else …` of
+`_handle_random_walk` followed, in the give-up branch, by the re-entry from `_compose_system` -/
+def failAttemptG (bsMaxiter : Nat) (mols : List Mol) (eng : Engine) (ctr : Nat) (i : Nat) (rest : List Nat)
+    (m : Mol) (stepCount : Nat) (returns : List (Nat × Bool)) : GSys :=
+  if stepCount = bsMaxiter then
+    -- processor.nonbond_matrix.remove_positions(mol_idx, built_nodes); return False, …
+    -- _compose_system: success is False -> mol_idx unchanged -> _handle_random_walk(molecule, mol_idx) again
+    ⟨beginAttempt mols (eng.remove i m.build) ctr (i :: rest), 0, returns ++ [(i, false)]⟩
+  else
+    -- step_count += 1; self.nonbond_matrix.remove_positions(mol_idx, built_nodes); next `while True` round
+    ⟨beginAttempt mols (eng.remove i m.build) ctr (i :: rest), stepCount + 1, returns⟩
+
+def afterTrialG (bsMaxiter : Nat) (mols : List Mol) (eng : Engine) (ctr : Nat) (i : Nat) (rest : List Nat) (m : Mol)
+    (w : WState) (ok : Bool) (stepCount : Nat) (returns : List (Nat × Bool)) : GSys :=
+  match nextBuild m w.step with
+  | some j => ⟨⟨eng, i :: rest, .walk { w with step := j }, ctr⟩, stepCount, returns⟩
+  | none =>
+    -- `return True, …`; `_compose_system`: mol_idx += 1, the next molecule gets a new call (step_count = 0)
+    if ok then ⟨beginAttempt mols eng ctr rest, 0, returns ++ [(i, true)]⟩
+    else failAttemptG bsMaxiter mols eng ctr i rest m stepCount returns
+
+/-- one trial with outcome `b` and everything up to the next trial, with `BuildSystem.maxiter = bsMaxiter` -/
+def stepG (cfg : Cfg) (bsMaxiter : Nat) (mols : List Mol) (g : GSys) (b : Bool) : GSys :=
+  let s := g.sys
+  match s.phase, s.todo with
+  | .start, i :: rest =>
+    match mols[i]? with
+    | none => g
+    | some m =>
+      if b then afterTrialG bsMaxiter mols (s.eng.add i m.first s.ctr) (s.ctr + 1) i rest m ⟨0, 0, []⟩ true
+        g.stepCount g.returns
+      else failAttemptG bsMaxiter mols s.eng s.ctr i rest m g.stepCount g.returns
+  | .walk w, i :: rest =>
+    match mols[i]? with
+    | none => g
+    | some m =>
+      match m.path[w.step]? with
+      | none => g
+      | some (_, cur) =>
+        let pl := w.placed ++ [(w.step, cur)]
+        if b then
+          afterTrialG bsMaxiter mols (s.eng.add i cur s.ctr) (s.ctr + 1) i rest m ⟨w.step + 1, 1, pl⟩ true
+            g.stepCount g.returns
+        else if w.count < cfg.maxiter ∧ cfg.nrewind + 1 ≤ pl.length then
+          let k := rewindIdx cfg.nrewind pl.length
+          let removed := ((pl.drop k).dropLast).map (·.2)
+          afterTrialG bsMaxiter mols (s.eng.remove i removed) s.ctr i rest m
+            ⟨(pl.getD k (w.step, cur)).1, w.count + 1, pl.take k⟩ false g.stepCount g.returns
+        else failAttemptG bsMaxiter mols s.eng s.ctr i rest m g.stepCount g.returns
+  | _, _ => g
+
+def initG (mols : List Mol) : GSys := ⟨init mols, 0, []⟩
+
+def runG (cfg : Cfg) (bsMaxiter : Nat) (mols : List Mol) (sched : List Bool) (g : GSys) : GSys :=
+  sched.foldl (stepG cfg bsMaxiter mols) g
+
+/-- molecules for which `_handle_random_walk` has returned `True`, in order -/
+def GSys.completed (g : GSys) : List Nat := (g.returns.filter (·.2)).map (·.1)
+
 end PolyplyVerif.Walk
